@@ -104,7 +104,7 @@ func main() {
 		}
 		desc := fmt.Sprintf("%s logged=%v %s damage=%s after %d valid messages", ce.role, ce.logged, a.name, dk, ce.pos)
 		replay := map[string]interface{}{"cell": desc, "index": i, "seed": c.Seed}
-		r, err := rig.NewStepRig(rig.StepCfg{Role: ce.role, HeartBtInt: 30, Limits: &session.IntLimits{Min: 5, Max: 60}})
+		r, err := rig.NewStepRig(rig.StepCfg{Role: ce.role, HeartBtInt: 30, Limits: &session.IntLimits{Min: 5, Max: 60}, SentinelBarrier: true})
 		if err != nil {
 			c.Inconclusive("rig: " + err.Error())
 			return
